@@ -2,7 +2,7 @@
    (Generated/StoreGen.v), are the entry-level functions that the store models of Store/Stores.v are made of
    (d_get / d_setnx / d_cas), for every entry, value, lifetime and instant.  Expiries in the models are always
    `Some` (every insertion writes Some(now + ttl)): [lift].  Outside the closure of Properties/*.vo. *)
-From Coq Require Import ZArith List Bool Lia ZifyBool.
+From Coq Require Import ZArith List Bool Lia ZifyBool String.
 Require Import TC.Base.Map TC.Store.Stores TC.Store.GenStoreOps TC.Generated.StoreGen.
 Open Scope Z_scope.
 
@@ -87,3 +87,37 @@ Proof. split; tie_eff gen_b_cas m_cas. Qed.
 Theorem gen_cleanup_placement :
   gen_p_cleans = (false, true, true) /\ gen_a_cleans = (false, true, true) /\ gen_b_cleans = (false, true, true).
 Proof. repeat split; reflexivity. Qed.
+
+(* ---- the sweeps: the predicate of `self.data.retain(..)` in each store, PeriodicStore's trigger and rescheduling ---- *)
+Ltac tie_keep f := intros sf ex now; unfold f; cbv zeta beta iota; cases.
+Theorem gen_p_keep_is_model : forall sf ex now, gen_p_keep sf (Some ex) now = (now <? ex).
+Proof. tie_keep gen_p_keep. Qed.
+Theorem gen_a_keep_is_model : forall sf ex now, gen_a_keep sf (Some ex) now = (now <? ex).
+Proof. tie_keep gen_a_keep. Qed.
+Theorem gen_b_keep_is_model : forall sf ex now, gen_b_keep sf (Some ex) now = (now <? ex).
+Proof. tie_keep gen_b_keep. Qed.
+
+(* hence `retain` of the models is the table filtered by the translated predicate *)
+Theorem gen_retain_is_model : forall (K : Type) sf (d : data K) now,
+  retain K d now = filter (fun p => gen_p_keep sf (Some (snd (snd p))) now) d /\
+  retain K d now = filter (fun p => gen_a_keep sf (Some (snd (snd p))) now) d /\
+  retain K d now = filter (fun p => gen_b_keep sf (Some (snd (snd p))) now) d.
+Proof.
+  intros K sf d now. unfold retain.
+  split; [|split]; apply filter_ext; intros p.
+  - rewrite gen_p_keep_is_model; reflexivity.
+  - rewrite gen_a_keep_is_model; reflexivity.
+  - rewrite gen_b_keep_is_model; reflexivity.
+Qed.
+
+(* PeriodicStore::maybe_clean_expired: when it sweeps and when the next sweep is scheduled *)
+Theorem gen_p_clean_is_model : forall (K : Type) (s : pstate K) sf now,
+  sf "next_cleanup"%string = p_next K s -> sf "cleanup_interval"%string = p_interval K s ->
+  p_next K (p_clean K s now) = (if gen_p_due sf now then gen_p_next sf now else p_next K s) /\
+  p_data K (p_clean K s now) = (if gen_p_due sf now then retain K (p_data K s) now else p_data K s) /\
+  p_interval K (p_clean K s now) = p_interval K s.
+Proof.
+  intros K s sf now H1 H2. unfold p_clean, gen_p_due, gen_p_next. rewrite H1, H2.
+  destruct (p_next K s <=? now) eqn:E; cbn [p_next p_data p_interval]; repeat split; try reflexivity;
+    repeat match goal with |- context [if ?c then _ else _] => destruct c eqn:? end; try reflexivity; exfalso; lia.
+Qed.
